@@ -451,11 +451,11 @@ class IrToPythonCompiler:
     def gen_cast(self, ins):
         if ins.ty.is_integer:
             self.emit(
-                f"{ins.name} = rt.correct(int(round({ins.src.name})), "
+                f"{ins.name} = rt.correct(int({ins.src.name}), "
                 + f"{ins.ty.bits}, {ins.ty.signed})"
             )
         elif ins.ty is ir.ptr:
-            self.emit(f"{ins.name} = int(round({ins.src.name}))")
+            self.emit(f"{ins.name} = int({ins.src.name})")
         elif ins.ty in [ir.f32, ir.f64]:
             self.emit(f"{ins.name} = float({ins.src.name})")
         else:  # pragma: no cover
